@@ -187,13 +187,18 @@ class Alternation(object):
         self.n_yield_sites = 0
         self._pull_sites = set()
         self._yield_sites = set()
-        # names derived by iter(src)
-        for n in own_nodes(func):
-            if isinstance(n, ast.Assign) and isinstance(n.value, ast.Call) and unparse(n.value.func) == "iter" \
-                    and n.value.args and self._is_src(n.value.args[0]):
-                for t in n.targets:
-                    if isinstance(t, ast.Name):
-                        self.src.add(t.id)
+        # names derived by iter(src), or bound to a lazy view of a source (blk_sig = Stream(sig).blocks(..)): pulling
+        # from the name pulls from the source
+        for _ in range(4):
+            grew = False
+            for n in own_nodes(func):
+                if isinstance(n, ast.Assign) and len(n.targets) == 1 and isinstance(n.targets[0], ast.Name) \
+                        and n.targets[0].id not in self.src and isinstance(n.value, (ast.Call, ast.GeneratorExp)) \
+                        and self._is_src(n.value):
+                    self.src.add(n.targets[0].id)
+                    grew = True
+            if not grew:
+                break
 
     def _is_src(self, e):
         if isinstance(e, ast.Name):
